@@ -616,7 +616,7 @@ func (b *Builder) PatchConfig() ([]byte, error) {
 	if b.FileType == FILETYPE_WINDOWS_SERVICE_EXE {
 		if val, ok := b.config.Config["Service Name"].(string); ok {
 			if len(val) > 0 {
-				b.compilerOptions.Defines = append(b.compilerOptions.Defines, "SERVICE_NAME=\\\""+val+"\\\"")
+				b.compilerOptions.Defines = append(b.compilerOptions.Defines, "SERVICE_NAME="+shellQuote(cStringLiteral(val)))
 				if !b.silent {
 					b.SendConsoleMessage("Info", "set service name to "+val)
 				}
@@ -1036,6 +1036,18 @@ func parsePort(s string) (int, error) {
 		return 0, errors.New("port " + s + " is not between 1 and 65535")
 	}
 	return port, nil
+}
+
+// cStringLiteral turns an operator supplied string into a C string literal.
+func cStringLiteral(s string) string {
+	var r = strings.NewReplacer("\\", "\\\\", "\"", "\\\"", "\n", "\\n", "\r", "\\r")
+	return "\"" + r.Replace(s) + "\""
+}
+
+// shellQuote makes s a single word for the `sh -c` that runs the compiler,
+// whatever characters it contains.
+func shellQuote(s string) string {
+	return "'" + strings.ReplaceAll(s, "'", "'\\''") + "'"
 }
 
 func (b *Builder) GetPayloadBytes() []byte {
